@@ -595,7 +595,7 @@ def cli_run(spec: Dict[str, Any]) -> Dict[str, Any]:
 
     root = spec["root"]
     if not spec.get("keep_tree"):
-        materialise(root, spec["files"])
+        materialise(root, spec["files"] if not spec.get("phase1_files") else spec["phase1_files"])
     os.chdir(root)
     sim = Sim(root, spec["sched"])
     _SIM = sim
@@ -615,6 +615,24 @@ def cli_run(spec: Dict[str, Any]) -> Dict[str, Any]:
     sim.log.add("argv", [a if not a.startswith(root) else sim.rel(a) for a in spec["argv"]])
     sys_path_before = list(sys.path)
     try:
+        if spec.get("phase1_files"):
+            # history inside one process: a first CLI run over an earlier version of the tree, then the
+            # files are put (back) to the version under test and the run that is judged follows
+            try:
+                main_mod.main(list(spec["argv"]))
+            except BaseException:  # noqa: BLE001
+                pass
+            sim.stats.inc("fault.earlier_cli_run_in_same_process")
+            for rel, text in spec["files"].items():
+                p = os.path.join(root, rel)
+                os.makedirs(os.path.dirname(p), exist_ok=True)
+                with builtins.open(p, "wb") as f:
+                    f.write(_file_bytes(rel, text))
+            del sim.events[:]
+            del sim.pass_files[:]
+            del sim.pass_results[:]
+            del ff_returns[:]
+            sim.pass_no = 0
         rc = main_mod.main(list(spec["argv"]))
         outcome = ["ok", rc]
     except SystemExit as e:
@@ -806,6 +824,22 @@ def generate(rng: random.Random, profile: Optional[Dict[str, Any]] = None) -> Di
             pres = [rel for rel in tree["files"] if any(pp == "<ROOT>" or pp == "<ROOT>/" + rel for pp in case["preserve"])]
             case["tree_meta"] = {"libs": tree["libs"], "clients": tree["clients"], "preserved_files": sorted(pres)}
             case["safe"] = rng.random() < 0.15
+            if rng.random() < 0.35:
+                # an earlier run in the same process saw clients that referenced less
+                p1 = dict(tree["files"])
+                for crel in tree["clients"]:
+                    lines = p1[crel].split("\n")
+                    keep = [l for i, l in enumerate(lines) if not l.startswith(("from ", "import ")) or i == 0]
+                    body = "\n".join(keep)
+                    start = body.find("REFERENCES = [\n")
+                    if start >= 0:
+                        body = body[:start] + "REFERENCES = []\n"
+                    try:
+                        ast.parse(body)
+                        p1[crel] = body
+                    except SyntaxError:
+                        p1[crel] = lines[0] + "\n"
+                case["phase1_files"] = p1
         else:
             case["paths"] = ["<ROOT>/" + c for c in tree["clients"]]
             rng.shuffle(case["paths"])
@@ -1083,7 +1117,7 @@ def execute(case: Dict[str, Any]) -> Dict[str, Any]:
     fault_batch = bool(case.get("fault"))
     try:
         ref_spec = {
-            "root": root, "files": case["files"],
+            "root": root, "files": case["files"], "phase1_files": case.get("phase1_files"),
             "argv": _argv(case, case["paths"], root, 1),
             "sched": {"strategy": "first", "granule": 1 << 30, "fault": case.get("fault")},
         }
@@ -1106,7 +1140,7 @@ def execute(case: Dict[str, Any]) -> Dict[str, Any]:
             violations += P.imports_check(case, ref, stats)
         for ri, s in enumerate(case["runs"]):
             spec = {
-                "root": root, "files": case["files"],
+                "root": root, "files": case["files"], "phase1_files": case.get("phase1_files"),
                 "argv": _argv(case, s.get("paths") or case["paths"], root, s["n_cores"]),
                 "sched": dict(s, fault=case.get("fault")),
             }
